@@ -47,7 +47,10 @@ def gen_chain(rng: Rng, cfg):
                 continue
             oids[-1] = rng.pick(cands)
             q[-1] = 0
-        return {'oids': oids, 'qnums': q, 'coeff': rng.pick(COEFFS), 'istart': istart}
+        c = rng.pick(COEFFS)
+        if rng.chance(0.08):
+            c = c * rng.pick([2.0 ** -30, 2.0 ** -34 * 3, 1.0 + 2.0 ** -24])
+        return {'oids': oids, 'qnums': q, 'coeff': c, 'istart': istart}
     return {'oids': [0], 'qnums': [0, 0], 'coeff': rng.pick(COEFFS), 'istart': 0}
 
 
@@ -63,6 +66,12 @@ def gen_chain_list(rng: Rng, cfg):
         c = dict(rng.pick(chains))
         c['coeff'] = 0.0
         chains.insert(rng.randrange(len(chains) + 1), c)
+    if rng.chance(0.25):
+        # fresh chains with coefficient exactly zero: they must not cost any bond dimension
+        for _ in range(rng.randrange(1, 5)):
+            c = gen_chain(rng, cfg)
+            c['coeff'] = rng.pick([0.0, 0.0, -0.0, 0])
+            chains.insert(rng.randrange(len(chains) + 1), c)
     if rng.chance(0.15):
         # terms sharing a long common prefix / suffix
         base = gen_chain(rng, cfg)
@@ -213,6 +222,33 @@ def gen_layered(rng: Rng, cfg):
                         break
         for _ in range(rng.randrange(0, 4)):
             add_edge(rng.pick(A), rng.pick(B))     # parallel / extra edges
+    # mergeable structure on purpose: clone a far node that has a single in-edge (same operators, same charge)
+    if L >= 2 and rng.chance(0.45):
+        for _try in range(6):
+            l = rng.randrange(0, L - 1)
+            cand = [e for e in edges if e['nids'][0] in layers[l] and sum(1 for f in edges if f['nids'][1] == e['nids'][1]) == 1]
+            if not cand:
+                continue
+            e = rng.pick(cand)
+            b = e['nids'][1]
+            newid = max(ids) + 1 + rng.randrange(0, 3)
+            ids.append(newid)
+            layers[l + 1].append(newid)
+            qn[newid] = qn[b]
+            cl = [list(x) for x in e['opics']]
+            if rng.chance(0.35):
+                # nearly (not exactly) equal coefficients: a correct simplification must keep the two edges apart
+                cl[0][1] = cl[0][1] * rng.pick([1.0 + 2.0 ** -24, 1.0 - 2.0 ** -25, 1.0 + 2.0 ** -40])
+            edges.append({'nids': [e['nids'][0], newid], 'opics': cl})
+            # outgoing edges of the clone: arbitrary
+            for _t in range(8):
+                if add_edge(newid, rng.pick(layers[l + 2])):
+                    break
+            else:
+                # no compatible target: copy one outgoing edge of the original
+                outs = [f for f in edges if f['nids'][0] == b]
+                edges.append({'nids': [newid, outs[0]['nids'][1]], 'opics': [list(x) for x in outs[0]['opics']]})
+            break
     # edge ids
     n = len(edges)
     if rng.chance(0.5):
